@@ -437,4 +437,1371 @@ theorem broadcastLoHi_same_length (lo hi : List Int) (h : lo.length = hi.length)
   · have h2 : ¬ hi.length = 1 := by omega
     simp only [h1, if_false, h2]
 
+/-! ### rlencode -/
+
+def bumpI (d : Int) : List Int → List Int
+  | [] => []
+  | x :: l => (x + d) :: l
+
+/-- the index array `i` of `rlencode` for the sub-list `a` that starts at global position `k` -/
+def rleIdx {α} [DecidableEq α] (k : Nat) (a : List α) : List Int :=
+  (trueIdxFrom k (neighbourDiff a)).map (fun (j : Nat) => (j : Int)) ++ [(k : Int) + (a.length : Int) - 1]
+
+theorem rleIdx_cons_cons {α} [DecidableEq α] (k : Nat) (x y : α) (l : List α) :
+    rleIdx k (x :: y :: l) = if x = y then rleIdx (k + 1) (y :: l) else (k : Int) :: rleIdx (k + 1) (y :: l) := by
+  have e : (k : Int) + ((x :: y :: l).length : Int) - 1 = ((k + 1 : Nat) : Int) + ((y :: l).length : Int) - 1 := by
+    simp only [List.length_cons]; omega
+  unfold rleIdx
+  rw [e]
+  by_cases hxy : x = y
+  · simp [neighbourDiff, trueIdxFrom, hxy]
+  · simp [neighbourDiff, trueIdxFrom, hxy]
+
+theorem rleSpec_cons_head {α} [DecidableEq α] (y : α) (l : List α) :
+    ∃ n r, rleSpec (y :: l) = (y, n) :: r := by
+  unfold rleSpec
+  cases h : rleSpec l with
+  | nil => exact ⟨1, [], rfl⟩
+  | cons p r =>
+    obtain ⟨b, n⟩ := p
+    by_cases hb : y = b
+    · subst hb; exact ⟨n + 1, r, by simp⟩
+    · exact ⟨1, (b, n) :: r, by simp [hb]⟩
+
+theorem getD_of_drop_eq_cons {α} [Inhabited α] (full : List α) (k : Nat) (x : α) (a : List α)
+    (h : full.drop k = x :: a) : full.getD k default = x ∧ full.drop (k + 1) = a := by
+  constructor
+  · have : (full.drop k).getD 0 default = x := by rw [h]; rfl
+    simpa [List.getD_eq_getElem?_getD, List.getElem?_drop] using this
+  · have : full.drop (k + 1) = (full.drop k).drop 1 := by simp [List.drop_drop]
+    rw [this, h]; rfl
+
+theorem rle_main {α} [DecidableEq α] [Inhabited α] (full : List α) :
+    ∀ (a : List α) (k : Nat) (pv : Int), a ≠ [] → full.drop k = a →
+      gather full ((rleIdx k a).map Int.toNat) = (rleSpec a).map (·.1) ∧
+      diffFrom pv (rleIdx k a) = bumpI ((k : Int) - 1 - pv) ((rleSpec a).map (fun p => (p.2 : Int))) := by
+  intro a
+  induction a with
+  | nil => intro k pv h; exact absurd rfl h
+  | cons x rest ih =>
+    intro k pv _ hk
+    obtain ⟨hx, hk'⟩ := getD_of_drop_eq_cons full k x rest hk
+    cases rest with
+    | nil =>
+      constructor
+      · have hx' : full[k]?.getD default = x := by simpa [List.getD_eq_getElem?_getD] using hx
+        simp [rleIdx, neighbourDiff, trueIdxFrom, gather, rleSpec, hx']
+      · simp only [rleIdx, neighbourDiff, trueIdxFrom, List.map_nil, List.nil_append, List.length_cons,
+          List.length_nil, diffFrom, rleSpec, List.map_cons, bumpI]
+        congr 1; omega
+    | cons y rest' =>
+      obtain ⟨n, r, hr⟩ := rleSpec_cons_head y rest'
+      rw [rleIdx_cons_cons]
+      by_cases hxy : x = y
+      · obtain ⟨h1, h2⟩ := ih (k + 1) pv (by simp) hk'
+        simp only [hxy, if_true]
+        have hs : rleSpec (y :: y :: rest') = (y, n + 1) :: r := by
+          conv => lhs; unfold rleSpec
+          rw [hr]; simp
+        rw [hs]
+        rw [hr] at h1 h2
+        refine ⟨by simpa using h1, ?_⟩
+        rw [h2]
+        simp only [List.map_cons, bumpI]
+        congr 1
+        push_cast; omega
+      · obtain ⟨h1, h2⟩ := ih (k + 1) (k : Int) (by simp) hk'
+        simp only [hxy, if_false]
+        have hs : rleSpec (x :: y :: rest') = (x, 1) :: (y, n) :: r := by
+          conv => lhs; unfold rleSpec
+          rw [hr]; simp [hxy]
+        rw [hs]
+        rw [hr] at h1 h2
+        constructor
+        · simp only [List.map_cons, Int.toNat_natCast, gather] at h1 ⊢
+          rw [h1, hx]
+        · simp only [diffFrom, h2, List.map_cons, bumpI]
+          congr 1
+          · push_cast; omega
+          · congr 1; push_cast; omega
+
+/-- decoding the runs gives the list back -/
+theorem rldecodeSpec_rleSpec {α} [DecidableEq α] (a : List α) :
+    rldecodeSpec ((rleSpec a).map (·.1)) ((rleSpec a).map (fun p => (p.2 : Int))) = a := by
+  induction a with
+  | nil => rfl
+  | cons x a ih =>
+    unfold rleSpec
+    cases h : rleSpec a with
+    | nil =>
+      rw [h] at ih
+      simp only [List.map_nil, rldecodeSpec] at ih
+      simp [rldecodeSpec, ← ih]
+    | cons p r =>
+      obtain ⟨b, n⟩ := p
+      rw [h] at ih
+      simp only [List.map_cons, rldecodeSpec, Int.toNat_natCast] at ih
+      by_cases hb : x = b
+      · subst hb
+        simp only [if_true, List.map_cons, rldecodeSpec, Int.toNat_natCast, List.replicate_succ,
+          List.cons_append, ih]
+      · simp only [hb, if_false, List.map_cons, rldecodeSpec, Int.toNat_natCast, ih]
+        simp
+
+/-- runs are maximal: neighbouring values differ; and no run is empty -/
+theorem rleSpec_maximal {α} [DecidableEq α] (a : List α) :
+    (neighbourDiff ((rleSpec a).map (·.1))).all id = true ∧ ∀ p ∈ rleSpec a, 1 ≤ p.2 := by
+  induction a with
+  | nil => simp [rleSpec, neighbourDiff]
+  | cons x a ih =>
+    unfold rleSpec
+    cases h : rleSpec a with
+    | nil => simp [neighbourDiff]
+    | cons p r =>
+      obtain ⟨b, n⟩ := p
+      rw [h] at ih
+      by_cases hb : x = b
+      · subst hb
+        simp only [if_true]
+        refine ⟨ih.1, ?_⟩
+        intro p hp
+        rcases List.mem_cons.mp hp with rfl | hp
+        · simp
+        · exact ih.2 p (List.mem_cons_of_mem _ hp)
+      · simp only [hb, if_false]
+        constructor
+        · simp only [List.map_cons, neighbourDiff, List.all_cons]
+          simp only [List.map_cons] at ih
+          simp [hb, ih.1]
+        · intro p hp
+          rcases List.mem_cons.mp hp with rfl | hp
+          · simp
+          · exact ih.2 p hp
+
+/-! ### compressed matrices as lists of rows -/
+
+theorem zip_map_fst_snd {α β} (l : List (α × β)) : (l.map (·.1)).zip (l.map (·.2)) = l := by
+  induction l with
+  | nil => rfl
+  | cons a l ih => simp [ih]
+
+/-- consecutive slices `E[p_i : p_{i+1}]` -/
+def splitRows {β} : List Nat → List β → List (List β)
+  | a :: b :: p, E => (E.drop a).take (b - a) :: splitRows (b :: p) E
+  | _, _ => []
+
+theorem range_map_eq_splitRows {β} (E : List β) : ∀ (n : Nat) (p : List Nat), p.length = n + 1 →
+    (List.range n).map (fun i => (E.drop (p.getD i 0)).take (p.getD (i + 1) 0 - p.getD i 0)) = splitRows p E := by
+  intro n
+  induction n with
+  | zero =>
+    intro p hp
+    match p, hp with
+    | [a], _ => rfl
+  | succ n ih =>
+    intro p hp
+    match p, hp with
+    | a :: b :: p', hp =>
+      have hp' : (b :: p').length = n + 1 := by simpa using hp
+      rw [List.range_succ_eq_map, List.map_cons, List.map_map, splitRows, ← ih (b :: p') hp']
+      simp [Function.comp_def]
+
+theorem rows_eq_splitRows (A : Csr) (h : A.indptr.length = A.nrows + 1) :
+    A.rows = splitRows A.indptr (A.indices.zip A.data) := by
+  unfold Csr.rows
+  rw [← range_map_eq_splitRows _ A.nrows A.indptr h]
+  rfl
+
+theorem ptrsFrom_eq_cons {β} (s : Nat) (R : List (List β)) : ptrsFrom s R = s :: (ptrsFrom s R).tail := by
+  cases R <;> rfl
+
+theorem length_ptrsFrom {β} (s : Nat) (R : List (List β)) : (ptrsFrom s R).length = R.length + 1 := by
+  induction R generalizing s with
+  | nil => rfl
+  | cons r R ih => simp [ptrsFrom, ih]
+
+theorem splitRows_ptrsFrom {β} : ∀ (R : List (List β)) (s : Nat) (pre : List β), pre.length = s →
+    splitRows (ptrsFrom s R) (pre ++ R.flatten) = R := by
+  intro R
+  induction R with
+  | nil => intro s pre _; rfl
+  | cons r R ih =>
+    intro s pre hs
+    rw [ptrsFrom, ptrsFrom_eq_cons (s + r.length) R, splitRows, ← ptrsFrom_eq_cons]
+    have h1 : (List.drop s (pre ++ (r :: R).flatten)).take (s + r.length - s) = r := by
+      subst hs
+      simp
+    rw [h1]
+    have h2 := ih (s + r.length) (pre ++ r) (by simp [hs])
+    simp only [List.flatten_cons, ← List.append_assoc]
+    simp only [List.append_assoc] at h2 ⊢
+    rw [h2]
+
+theorem rows_ofRows (nc : Nat) (R : List (List (Nat × Rat))) : (ofRows nc R).rows = R := by
+  rw [rows_eq_splitRows _ (by simp [ofRows, length_ptrsFrom])]
+  simp only [ofRows, zip_map_fst_snd]
+  exact splitRows_ptrsFrom R 0 [] rfl
+
+theorem toDense_ofRows (nc : Nat) (R : List (List (Nat × Rat))) :
+    (ofRows nc R).toDense = R.map (denseRow nc) := by
+  simp only [Csr.toDense, rows_ofRows]
+  rfl
+
+theorem getLastD_cons_cons {α} (a b : α) (l : List α) (d d' : α) :
+    (a :: b :: l).getLastD d = (b :: l).getLastD d' := by
+  rw [List.getLastD_eq_getLast?, List.getLastD_eq_getLast?, List.getLast?_cons_cons]
+  rw [List.getLast?_eq_some_getLast (l := b :: l) (by simp)]
+  rfl
+
+theorem monotone_head_le_last : ∀ (p : List Nat) (a : Nat), monotone (a :: p) = true → a ≤ (a :: p).getLastD 0 := by
+  intro p
+  induction p with
+  | nil => intro a _; simp
+  | cons b p ih =>
+    intro a h
+    simp only [monotone, Bool.and_eq_true, decide_eq_true_eq] at h
+    have := ih b h.2
+    rw [getLastD_cons_cons a b p 0 0]
+    omega
+
+theorem take_drop_add {β} (E : List β) (a b c : Nat) (hab : a ≤ b) (hbc : b ≤ c) :
+    (E.drop a).take (b - a) ++ (E.drop b).take (c - b) = (E.drop a).take (c - a) := by
+  have e : c - a = (b - a) + (c - b) := by omega
+  rw [e, List.take_add, List.drop_drop]
+  congr 3
+  omega
+
+theorem splitRows_monotone {β} (E : List β) : ∀ (p : List Nat) (a : Nat), monotone (a :: p) = true →
+    (a :: p).getLastD 0 ≤ E.length →
+    ptrsFrom a (splitRows (a :: p) E) = a :: p ∧
+    (splitRows (a :: p) E).flatten = (E.drop a).take ((a :: p).getLastD 0 - a) := by
+  intro p
+  induction p with
+  | nil => intro a _ _; simp [splitRows, ptrsFrom]
+  | cons b p ih =>
+    intro a hm hl
+    simp only [monotone, Bool.and_eq_true, decide_eq_true_eq] at hm
+    rw [getLastD_cons_cons a b p 0 0] at hl ⊢
+    obtain ⟨h1, h2⟩ := ih b hm.2 hl
+    have hb := monotone_head_le_last p b hm.2
+    have hlen : ((E.drop a).take (b - a)).length = b - a := by
+      simp only [List.length_take, List.length_drop]; omega
+    constructor
+    · rw [splitRows, ptrsFrom, hlen]
+      have : a + (b - a) = b := by omega
+      rw [this, h1]
+    · rw [splitRows, List.flatten_cons, h2, take_drop_add E a b _ hm.1 hb]
+
+/-- column indices of all stored entries are in range -/
+def RowsOk (nc : Nat) (R : List (List (Nat × Rat))) : Prop := ∀ r ∈ R, ∀ e ∈ r, e.1 < nc
+
+theorem WF_unpack (A : Csr) (h : A.WF) :
+    A.indptr.length = A.nrows + 1 ∧ A.indptr.headD 1 = 0 ∧ monotone A.indptr = true ∧
+    A.indptr.getLastD 0 = A.indices.length ∧ A.indices.length = A.data.length ∧
+    ∀ c ∈ A.indices, c < A.ncols := by
+  simpa [Csr.WF, Csr.wfb, Bool.and_eq_true, decide_eq_true_eq, List.all_eq_true, and_assoc] using h
+
+/-- Every well-formed compressed matrix is the compressed form of its list of rows. -/
+theorem WF_eq_ofRows (A : Csr) (h : A.WF) : A = ofRows A.ncols A.rows ∧ RowsOk A.ncols A.rows := by
+  obtain ⟨h1, h2, h3, h4, h5, h6⟩ := WF_unpack A h
+  obtain ⟨nrows, ncols, indptr, indices, data⟩ := A
+  simp only at h1 h2 h3 h4 h5 h6
+  match indptr, h1, h2 with
+  | a :: p, h1, h2 =>
+    have ha : a = 0 := by simpa using h2
+    subst ha
+    have hE : (indices.zip data).length = indices.length := by simp [List.length_zip, h5]
+    obtain ⟨e1, e2⟩ := splitRows_monotone (indices.zip data) p 0 h3 (by rw [hE]; omega)
+    have hrows := rows_eq_splitRows ⟨nrows, ncols, 0 :: p, indices, data⟩ h1
+    simp only at hrows
+    have hflat : (splitRows (0 :: p) (indices.zip data)).flatten = indices.zip data := by
+      rw [e2, h4, Nat.sub_zero, List.drop_zero, ← hE, List.take_length]
+    constructor
+    · simp only [ofRows, hrows, e1, hflat]
+      have hn : (splitRows (0 :: p) (indices.zip data)).length = nrows := by
+        rw [← hrows]; simp [Csr.rows]
+      rw [hn]
+      congr 1
+      · exact (List.map_fst_zip (by omega)).symm
+      · exact (List.map_snd_zip (by omega)).symm
+    · intro r hr e he
+      rw [hrows] at hr
+      have : e ∈ (splitRows (0 :: p) (indices.zip data)).flatten := List.mem_flatten.mpr ⟨r, hr, he⟩
+      rw [hflat] at this
+      exact h6 e.1 (List.of_mem_zip this).1
+
+/-! ### well-formedness of `ofRows`, stacking -/
+
+theorem ptrsFrom_shift {β} (s t : Nat) (R : List (List β)) :
+    ptrsFrom (s + t) R = (ptrsFrom s R).map (· + t) := by
+  induction R generalizing s with
+  | nil => rfl
+  | cons r R ih =>
+    simp only [ptrsFrom, List.map_cons]
+    rw [← ih (s + r.length)]
+    congr 2
+    omega
+
+theorem ptrsFrom_append {β} (s : Nat) (R1 R2 : List (List β)) :
+    ptrsFrom s (R1 ++ R2) = ptrsFrom s R1 ++ (ptrsFrom (s + R1.flatten.length) R2).tail := by
+  induction R1 generalizing s with
+  | nil =>
+    simpa [ptrsFrom] using ptrsFrom_eq_cons s R2
+  | cons r R1 ih =>
+    simp only [List.cons_append, ptrsFrom, List.flatten_cons, List.length_append, ih]
+    rw [Nat.add_assoc]
+
+theorem getLastD_ptrsFrom {β} (s d : Nat) (R : List (List β)) :
+    (ptrsFrom s R).getLastD d = s + R.flatten.length := by
+  induction R generalizing s d with
+  | nil => simp [ptrsFrom]
+  | cons r R ih =>
+    rw [ptrsFrom, ptrsFrom_eq_cons, getLastD_cons_cons _ _ _ d 0, ← ptrsFrom_eq_cons, ih]
+    simp [Nat.add_assoc]
+
+theorem monotone_ptrsFrom {β} (s : Nat) (R : List (List β)) : monotone (ptrsFrom s R) = true := by
+  induction R generalizing s with
+  | nil => rfl
+  | cons r R ih =>
+    rw [ptrsFrom, ptrsFrom_eq_cons, monotone, ← ptrsFrom_eq_cons, ih]
+    simp
+
+theorem WF_ofRows (nc : Nat) (R : List (List (Nat × Rat))) (h : RowsOk nc R) : (ofRows nc R).WF := by
+  have h1 : (ptrsFrom 0 R).headD 1 = 0 := by rw [ptrsFrom_eq_cons]; rfl
+  have h2 : ∀ c ∈ (R.flatten.map (·.1)), c < nc := by
+    intro c hc
+    obtain ⟨e, he, rfl⟩ := List.mem_map.mp hc
+    obtain ⟨r, hr, her⟩ := List.mem_flatten.mp he
+    exact h r hr e her
+  simp only [Csr.WF, Csr.wfb, ofRows, Bool.and_eq_true, decide_eq_true_eq, List.all_eq_true,
+    length_ptrsFrom, monotone_ptrsFrom, getLastD_ptrsFrom, List.length_map, Nat.zero_add, h1]
+  exact ⟨⟨⟨⟨⟨trivial, trivial⟩, trivial⟩, trivial⟩, trivial⟩, fun x hx => decide_eq_true (h2 x hx)⟩
+
+theorem stackMat_ofRows (nc nc2 : Nat) (R1 R2 : List (List (Nat × Rat))) :
+    stackMat (ofRows nc R1) (ofRows nc2 R2) = ofRows nc (R1 ++ R2) := by
+  unfold stackMat
+  by_cases h : (ofRows nc2 R2).indptr.length = 1
+  · rw [if_pos h]
+    have : R2 = [] := by
+      simp only [ofRows, length_ptrsFrom] at h
+      exact List.eq_nil_of_length_eq_zero (by omega)
+    subst this
+    simp
+  · rw [if_neg h]
+    simp only [ofRows, List.length_append, List.flatten_append, List.map_append, ptrsFrom_append,
+      getLastD_ptrsFrom, Nat.zero_add]
+    congr 2
+    have := ptrsFrom_shift 0 R1.flatten.length R2
+    rw [Nat.zero_add] at this
+    rw [this, List.map_tail]
+
+def shiftRow (k : Nat) (r : List (Nat × Rat)) : List (Nat × Rat) := r.map (fun e => (e.1 + k, e.2))
+
+theorem stackDiag_ofRows (nc1 nc2 : Nat) (R1 R2 : List (List (Nat × Rat))) :
+    stackDiag (ofRows nc1 R1) (ofRows nc2 R2) = ofRows (nc1 + nc2) (R1 ++ R2.map (shiftRow nc1)) := by
+  simp only [stackDiag, ofRows, List.length_append, List.length_map, List.flatten_append, List.map_append,
+    ptrsFrom_append, getLastD_ptrsFrom, Nat.zero_add]
+  have hlen : ∀ (s : Nat) (R : List (List (Nat × Rat))), ptrsFrom s (R.map (shiftRow nc1)) = ptrsFrom s R := by
+    intro s R
+    induction R generalizing s with
+    | nil => rfl
+    | cons r R ih => simp [ptrsFrom, ih, shiftRow]
+  have := ptrsFrom_shift 0 R1.flatten.length R2
+  rw [Nat.zero_add] at this
+  rw [hlen, this, List.map_tail]
+  congr 1
+  · simp [List.map_flatten, shiftRow, Function.comp_def]
+  · simp [List.map_flatten, shiftRow, Function.comp_def]
+
+/-! ### dense rows -/
+
+theorem entrySum_eq_zero_of_ne (j : Nat) (es : List (Nat × Rat)) (h : ∀ e ∈ es, e.1 ≠ j) : entrySum j es = 0 := by
+  induction es with
+  | nil => rfl
+  | cons e es ih =>
+    have h1 : e.1 ≠ j := h e List.mem_cons_self
+    simp only [entrySum, h1, if_false, ih (fun e he => h e (List.mem_cons_of_mem _ he))]
+    exact Rat.add_zero 0
+
+theorem entrySum_shift (k j : Nat) (es : List (Nat × Rat)) :
+    entrySum (k + j) (shiftRow k es) = entrySum j es := by
+  induction es with
+  | nil => rfl
+  | cons e es ih =>
+    have : (e.1 + k = k + j) ↔ (e.1 = j) := by omega
+    show (if e.1 + k = k + j then e.2 else 0) + entrySum (k + j) (shiftRow k es) = _
+    rw [ih]
+    simp only [this, entrySum]
+
+theorem denseRow_add_left (nc1 nc2 : Nat) (es : List (Nat × Rat)) (h : ∀ e ∈ es, e.1 < nc1) :
+    denseRow (nc1 + nc2) es = denseRow nc1 es ++ List.replicate nc2 0 := by
+  simp only [denseRow, List.range_add, List.map_append, List.map_map]
+  congr 1
+  rw [List.eq_replicate_iff]
+  refine ⟨by simp, ?_⟩
+  intro x hx
+  obtain ⟨j, _, rfl⟩ := List.mem_map.mp hx
+  exact entrySum_eq_zero_of_ne _ _ (fun e he => by have := h e he; show e.1 ≠ nc1 + j; omega)
+
+theorem denseRow_add_right (nc1 nc2 : Nat) (es : List (Nat × Rat)) :
+    denseRow (nc1 + nc2) (shiftRow nc1 es) = List.replicate nc1 0 ++ denseRow nc2 es := by
+  simp only [denseRow, List.range_add, List.map_append, List.map_map]
+  congr 1
+  · rw [List.eq_replicate_iff]
+    refine ⟨by simp, ?_⟩
+    intro x hx
+    obtain ⟨j, hj, rfl⟩ := List.mem_map.mp hx
+    have hj' : j < nc1 := List.mem_range.mp hj
+    apply entrySum_eq_zero_of_ne
+    intro e he
+    obtain ⟨e', _, rfl⟩ := List.mem_map.mp he
+    simp only; omega
+  · apply List.map_congr_left
+    intro j _
+    simp only [Function.comp]
+    exact entrySum_shift nc1 j es
+
+/-- case analysis used by every matrix theorem: a well-formed matrix is `ofRows` of in-range rows -/
+theorem WF_cases (A : Csr) (h : A.WF) : ∃ R, A = ofRows A.ncols R ∧ RowsOk A.ncols R ∧ A.rows = R :=
+  ⟨A.rows, (WF_eq_ofRows A h).1, (WF_eq_ofRows A h).2, rfl⟩
+
+theorem RowsOk_append {nc : Nat} {R1 R2 : List (List (Nat × Rat))} (h1 : RowsOk nc R1) (h2 : RowsOk nc R2) :
+    RowsOk nc (R1 ++ R2) := by
+  intro r hr
+  rcases List.mem_append.mp hr with h | h
+  · exact h1 r h
+  · exact h2 r h
+
+theorem RowsOk_mono {nc nc' : Nat} {R : List (List (Nat × Rat))} (h : RowsOk nc R) (hle : nc ≤ nc') :
+    RowsOk nc' R := fun r hr e he => Nat.lt_of_lt_of_le (h r hr e he) hle
+
+theorem RowsOk_shift {nc k : Nat} {R : List (List (Nat × Rat))} (h : RowsOk nc R) :
+    RowsOk (k + nc) (R.map (shiftRow k)) := by
+  intro r hr e he
+  obtain ⟨r', hr', rfl⟩ := List.mem_map.mp hr
+  obtain ⟨e', he', rfl⟩ := List.mem_map.mp he
+  have := h r' hr' e' he'
+  simp only; omega
+
+/-! ### line positions, slicing -/
+
+theorem expandSpec_map {ι} (f g : ι → Int) (l : List ι) :
+    expandSpec (l.map f) (l.map g) = l.flatMap (fun i => rangeI (f i) (g i)) := by
+  induction l with
+  | nil => rfl
+  | cons a l ih => simp only [List.map_cons, expandSpec, List.flatMap_cons, ih]
+
+theorem rangeI_natCast (a b : Nat) : (rangeI (a : Int) (b : Int)).map Int.toNat = List.range' a (b - a) := by
+  have e : ((b : Int) - (a : Int)).toNat = b - a := by omega
+  simp only [rangeI, e, List.map_map, List.range'_eq_map_range]
+  apply List.map_congr_left
+  intro k _
+  simp only [Function.comp]
+  omega
+
+theorem expandIP_same_length (lo hi : List Int) (h : lo.length = hi.length) :
+    expandIP lo hi = expandSpec lo hi := by
+  simp only [expandIP, broadcastLoHi_same_length lo hi h, expandCore_eq_spec]
+
+/-- storage positions of the given lines: the ranges `[indptr[i], indptr[i+1])` one after the other -/
+theorem lineIdx_eq (A : Csr) (lines : List Nat) :
+    A.lineIdx lines = lines.flatMap (fun i =>
+      List.range' (A.indptr.getD i 0) (A.indptr.getD (i + 1) 0 - A.indptr.getD i 0)) := by
+  simp only [Csr.lineIdx, Csr.ptrLo, Csr.ptrHi]
+  rw [expandIP_same_length _ _ (by simp), expandSpec_map, List.map_flatMap]
+  congr 1
+  funext i
+  exact rangeI_natCast _ _
+
+theorem gather_range' {α} [Inhabited α] (l : List α) (a n : Nat) (h : a + n ≤ l.length) :
+    gather l (List.range' a n) = (l.drop a).take n := by
+  apply List.ext_getElem
+  · simp [gather]; omega
+  · intro k h1 h2
+    simp only [gather, List.length_map, List.length_range'] at h1
+    simp [gather, List.getD_eq_getElem?_getD, List.getElem?_eq_getElem (show a + k < l.length by omega)]
+
+theorem gather_flatMap {α ι} [Inhabited α] (l : List α) (f : ι → List Nat) (is : List ι) :
+    gather l (is.flatMap f) = is.flatMap (fun i => gather l (f i)) := by
+  induction is with
+  | nil => rfl
+  | cons i is ih => simp only [List.flatMap_cons, gather_append, ih]
+
+theorem getD_ptrsFrom {β} : ∀ (R : List (List β)) (s i : Nat), i ≤ R.length →
+    (ptrsFrom s R).getD i 0 = s + (R.take i).flatten.length := by
+  intro R
+  induction R with
+  | nil => intro s i hi; have : i = 0 := by simpa using hi
+           subst this; simp [ptrsFrom]
+  | cons r R ih =>
+    intro s i hi
+    cases i with
+    | zero => simp [ptrsFrom]
+    | succ i =>
+      have hi' : i ≤ R.length := by simpa using hi
+      simp only [ptrsFrom, List.getD_cons_succ, ih _ _ hi', List.take_succ_cons, List.flatten_cons,
+        List.length_append]
+      omega
+
+theorem rowEntries_ofRows (nc : Nat) (R : List (List (Nat × Rat))) (i : Nat) (hi : i < R.length) :
+    (ofRows nc R).rowEntries i = R.getD i [] := by
+  have h := rows_ofRows nc R
+  have h2 : ((ofRows nc R).rows).getD i [] = R.getD i [] := by rw [h]
+  rw [← h2]
+  simp [Csr.rows, List.getD_eq_getElem?_getD, ofRows, hi]
+
+theorem ptr_succ_ofRows (nc : Nat) (R : List (List (Nat × Rat))) (i : Nat) (hi : i < R.length) :
+    (ofRows nc R).indptr.getD (i + 1) 0 = (ofRows nc R).indptr.getD i 0 + (R.getD i []).length ∧
+    (ofRows nc R).indptr.getD (i + 1) 0 ≤ R.flatten.length := by
+  simp only [ofRows]
+  rw [getD_ptrsFrom R 0 (i + 1) (by omega), getD_ptrsFrom R 0 i (by omega)]
+  have e : R.take (i + 1) = R.take i ++ [R.getD i []] := by
+    rw [List.take_add_one]
+    simp [List.getD_eq_getElem?_getD, List.getElem?_eq_getElem hi]
+  constructor
+  · rw [e]; simp
+  · have : R.flatten = (R.take (i + 1)).flatten ++ (R.drop (i + 1)).flatten := by
+      rw [← List.flatten_append, List.take_append_drop]
+    conv => rhs; rw [this]
+    rw [List.length_append]; omega
+
+/-- what fancy indexing with the expanded line positions picks out of a storage array -/
+theorem gather_lineIdx_ofRows {γ} [Inhabited γ] (nc : Nat) (R : List (List (Nat × Rat))) (f : Nat × Rat → γ)
+    (lines : List Nat) (hl : ∀ i ∈ lines, i < R.length) :
+    gather (R.flatten.map f) ((ofRows nc R).lineIdx lines) = ((lines.map (fun i => R.getD i [])).flatten).map f := by
+  rw [lineIdx_eq, gather_flatMap]
+  induction lines with
+  | nil => rfl
+  | cons i lines ih =>
+    have hi' := hl i List.mem_cons_self
+    rw [List.flatMap_cons, List.map_cons, List.flatten_cons, List.map_append,
+      ih (fun j hj => hl j (List.mem_cons_of_mem _ hj))]
+    congr 1
+    obtain ⟨h1, h2⟩ := ptr_succ_ofRows nc R i hi'
+    rw [gather_range' _ _ _ (by simp only [List.length_map]; omega)]
+    have hrow := rowEntries_ofRows nc R i hi'
+    simp only [Csr.rowEntries] at hrow
+    have hz : (ofRows nc R).indices.zip (ofRows nc R).data = R.flatten := by
+      simp only [ofRows]; exact zip_map_fst_snd _
+    rw [hz] at hrow
+    rw [← List.map_drop, ← List.map_take, hrow]
+
+theorem cumsumFrom_lengths {β} (rows : List (List β)) (s : Nat) :
+    (cumsumFrom (s : Int) (rows.map (fun r => (r.length : Int)))).map Int.toNat = (ptrsFrom s rows).tail := by
+  induction rows generalizing s with
+  | nil => rfl
+  | cons r rows ih =>
+    have e : (s : Int) + (r.length : Int) = ((s + r.length : Nat) : Int) := by push_cast; rfl
+    simp only [List.map_cons, cumsumFrom, ptrsFrom, List.tail_cons]
+    rw [e, ih (s + r.length), Int.toNat_natCast, ← ptrsFrom_eq_cons]
+
+theorem sliceLines_ofRows (nc : Nat) (R : List (List (Nat × Rat))) (lines : List Nat)
+    (hl : ∀ i ∈ lines, i < R.length) :
+    sliceLines (ofRows nc R) lines = ofRows nc (lines.map (fun i => R.getD i [])) := by
+  have hd : List.zipWith (· - ·) ((ofRows nc R).ptrHi lines) ((ofRows nc R).ptrLo lines)
+      = (lines.map (fun i => R.getD i [])).map (fun r => (r.length : Int)) := by
+    simp only [Csr.ptrHi, Csr.ptrLo, List.zipWith_map, List.zipWith_self, List.map_map]
+    apply List.map_congr_left
+    intro i hi
+    obtain ⟨h1, _⟩ := ptr_succ_ofRows nc R i (hl i hi)
+    simp only [Function.comp]
+    omega
+  have h1 := gather_lineIdx_ofRows nc R (·.1) lines hl
+  have h2 := gather_lineIdx_ofRows nc R (·.2) lines hl
+  simp only [sliceLines, hd]
+  simp only [ofRows] at h1 h2 ⊢
+  rw [h1, h2]
+  simp only [List.length_map, List.map_cons, cumsum]
+  have := cumsumFrom_lengths (lines.map (fun i => R.getD i [])) 0
+  simp only [Int.natCast_zero] at this
+  rw [this, Int.toNat_zero, ← ptrsFrom_eq_cons]
+
+theorem sliceIndices_ofRows (nc : Nat) (R : List (List (Nat × Rat))) (lines : List Nat)
+    (hl : ∀ i ∈ lines, i < R.length) :
+    (sliceIndices (ofRows nc R) lines).1 = ((lines.map (fun i => R.getD i [])).flatten).map (·.1) := by
+  have h1 := gather_lineIdx_ofRows nc R (·.1) lines hl
+  simp only [sliceIndices]
+  simp only [ofRows] at h1 ⊢
+  exact h1
+
+theorem getD_map_denseRow (nc : Nat) (R : List (List (Nat × Rat))) (i : Nat) (hi : i < R.length) :
+    (R.map (denseRow nc)).getD i (List.replicate nc 0) = denseRow nc (R.getD i []) := by
+  simp [List.getD_eq_getElem?_getD, hi]
+
+/-! ### zeroing lines -/
+
+theorem flatMap_congr' {α β} {l : List α} {f g : α → List β} (h : ∀ x ∈ l, f x = g x) :
+    l.flatMap f = l.flatMap g := by
+  induction l with
+  | nil => rfl
+  | cons a l ih =>
+    rw [List.flatMap_cons, List.flatMap_cons, h a List.mem_cons_self,
+      ih (fun x hx => h x (List.mem_cons_of_mem _ hx))]
+
+theorem getD_map {β γ} (f : β → γ) (l : List β) (i : Nat) (d : β) : (l.map f).getD i (f d) = f (l.getD i d) := by
+  simp only [List.getD_eq_getElem?_getD, List.getElem?_map]
+  cases l[i]? <;> rfl
+
+theorem scatterConst_append_idx {α} (x : List α) (i1 i2 : List Nat) (v : α) :
+    scatterConst x (i1 ++ i2) v = scatterConst (scatterConst x i1 v) i2 v := by
+  induction i1 generalizing x with
+  | nil => rfl
+  | cons i i1 ih => simp only [List.cons_append, scatterConst, ih]
+
+theorem scatterConst_range' {α} (v : α) : ∀ (mid pre post : List α),
+    scatterConst (pre ++ mid ++ post) (List.range' pre.length mid.length) v
+      = pre ++ List.replicate mid.length v ++ post := by
+  intro mid
+  induction mid with
+  | nil => intro pre post; simp [scatterConst]
+  | cons x mid ih =>
+    intro pre post
+    have h := ih (pre ++ [v]) post
+    simp only [List.length_append, List.length_cons, List.length_nil, Nat.zero_add] at h
+    simp only [List.length_cons, List.range'_succ, scatterConst, List.replicate_succ]
+    have e : pre ++ x :: mid ++ post = pre ++ x :: (mid ++ post) := by simp
+    rw [e, set_append_head]
+    have e2 : pre ++ v :: (mid ++ post) = pre ++ [v] ++ mid ++ post := by simp
+    rw [e2, h]
+    simp
+
+/-- storage positions of line `i` in the flattened rows -/
+def linePos {β} (R : List (List β)) (i : Nat) : List Nat :=
+  List.range' (R.take i).flatten.length (R.getD i []).length
+
+theorem linePos_congr {β γ} (R : List (List β)) (R' : List (List γ)) (h : R.map List.length = R'.map List.length)
+    (i : Nat) : linePos R i = linePos R' i := by
+  have h1 : (R.take i).flatten.length = (R'.take i).flatten.length := by
+    simp only [List.length_flatten, List.map_take, h]
+  have h2 : (R.getD i []).length = (R'.getD i []).length := by
+    have e1 := getD_map List.length R i []
+    have e2 := getD_map List.length R' i []
+    simp only [List.length_nil] at e1 e2
+    rw [← e1, ← e2, h]
+  simp only [linePos, h1, h2]
+
+/-- `R[l] = [v, …, v]` for the given lines, one after the other -/
+def setLines {β} (v : β) (R : List (List β)) : List Nat → List (List β)
+  | [] => R
+  | l :: ls => setLines v (R.set l (List.replicate (R.getD l []).length v)) ls
+
+theorem flatten_set {β} (R : List (List β)) (l : Nat) (r : List β) (hl : l < R.length) :
+    (R.set l r).flatten = (R.take l).flatten ++ r ++ (R.drop (l + 1)).flatten := by
+  rw [List.set_eq_take_append_cons_drop, if_pos hl]
+  simp
+
+theorem flatten_split {β} (R : List (List β)) (l : Nat) (hl : l < R.length) :
+    R.flatten = (R.take l).flatten ++ R.getD l [] ++ (R.drop (l + 1)).flatten := by
+  have := flatten_set R l (R.getD l []) hl
+  rw [← this]
+  congr 1
+  simp [List.getD_eq_getElem?_getD, List.getElem?_eq_getElem hl]
+
+theorem scatterConst_lines {β} (v : β) : ∀ (lines : List Nat) (R : List (List β)), (∀ i ∈ lines, i < R.length) →
+    scatterConst R.flatten (lines.flatMap (linePos R)) v = (setLines v R lines).flatten := by
+  intro lines
+  induction lines with
+  | nil => intro R _; rfl
+  | cons l lines ih =>
+    intro R hl
+    have hl0 : l < R.length := hl l List.mem_cons_self
+    rw [List.flatMap_cons, scatterConst_append_idx, setLines]
+    have h1 : scatterConst R.flatten (linePos R l) v
+        = (R.set l (List.replicate (R.getD l []).length v)).flatten := by
+      rw [flatten_set _ _ _ hl0]
+      conv => lhs; rw [flatten_split R l hl0]
+      exact scatterConst_range' v _ _ _
+    rw [h1]
+    have hlen : (R.set l (List.replicate (R.getD l []).length v)).map List.length = R.map List.length := by
+      rw [List.map_set, List.length_replicate]
+      apply List.ext_getElem
+      · simp
+      · intro k h1 h2
+        simp only [List.getElem_set, List.getElem_map]
+        split
+        · next h => subst h; simp [List.getD_eq_getElem?_getD, List.getElem?_eq_getElem hl0]
+        · rfl
+    have hpos : lines.flatMap (linePos R) = lines.flatMap (linePos (R.set l (List.replicate (R.getD l []).length v))) := by
+      apply flatMap_congr'
+      intro i _
+      exact (linePos_congr _ _ hlen i).symm
+    rw [hpos]
+    apply ih
+    intro i hi
+    rw [List.length_set]
+    exact hl i (List.mem_cons_of_mem _ hi)
+
+theorem lineIdx_ofRows (nc : Nat) (R : List (List (Nat × Rat))) (lines : List Nat)
+    (hl : ∀ i ∈ lines, i < R.length) : (ofRows nc R).lineIdx lines = lines.flatMap (linePos R) := by
+  rw [lineIdx_eq]
+  apply flatMap_congr'
+  intro i hi
+  obtain ⟨h1, _⟩ := ptr_succ_ofRows nc R i (hl i hi)
+  have h0 : (ofRows nc R).indptr.getD i 0 = (R.take i).flatten.length := by
+    simp only [ofRows]
+    rw [getD_ptrsFrom R 0 i (by have := hl i hi; omega)]
+    omega
+  simp only [linePos, h1, h0]
+  congr 1
+  omega
+
+/-- rows with the values of the given lines zeroed (structure kept) -/
+def zeroRowsR (R : List (List (Nat × Rat))) : List Nat → List (List (Nat × Rat))
+  | [] => R
+  | l :: ls => zeroRowsR (R.set l ((R.getD l []).map (fun e => (e.1, (0 : Rat))))) ls
+
+theorem zeroRowsR_fst (R : List (List (Nat × Rat))) (lines : List Nat) :
+    (zeroRowsR R lines).map (List.map (·.1)) = R.map (List.map (·.1)) := by
+  induction lines generalizing R with
+  | nil => rfl
+  | cons l lines ih =>
+    rw [zeroRowsR, ih, List.map_set]
+    apply List.ext_getElem
+    · simp
+    · intro k h1 h2
+      simp only [List.getElem_set, List.getElem_map]
+      split
+      · next h =>
+        subst h
+        have hl : l < R.length := by simpa using h2
+        simp [List.getD_eq_getElem?_getD, List.getElem?_eq_getElem hl, Function.comp_def]
+      · rfl
+
+theorem zeroRowsR_snd (R : List (List (Nat × Rat))) (lines : List Nat) :
+    (zeroRowsR R lines).map (List.map (·.2)) = setLines 0 (R.map (List.map (·.2))) lines := by
+  induction lines generalizing R with
+  | nil => rfl
+  | cons l lines ih =>
+    rw [zeroRowsR, ih, setLines, List.map_set]
+    congr 2
+    have := getD_map (List.map (fun (e : Nat × Rat) => e.2)) R l []
+    simp only [List.map_nil] at this
+    rw [this, List.map_map, List.length_map]
+    rw [List.eq_replicate_iff]
+    refine ⟨by simp, ?_⟩
+    intro b hb
+    obtain ⟨e, _, rfl⟩ := List.mem_map.mp hb
+    rfl
+
+theorem ofRows_eq_of_maps (R R' : List (List (Nat × Rat)))
+    (h1 : R.map (List.map (·.1)) = R'.map (List.map (·.1)))
+    (h2 : R.map (List.map (·.2)) = R'.map (List.map (·.2))) : R = R' := by
+  have e : ∀ (Q : List (List (Nat × Rat))), Q = List.zipWith List.zip (Q.map (List.map (·.1))) (Q.map (List.map (·.2))) := by
+    intro Q
+    induction Q with
+    | nil => rfl
+    | cons q Q ih => simp only [List.map_cons, List.zipWith_cons_cons, zip_map_fst_snd, ← ih]
+  rw [e R, e R', h1, h2]
+
+theorem zeroLines_ofRows (nc : Nat) (R : List (List (Nat × Rat))) (lines : List Nat)
+    (hl : ∀ i ∈ lines, i < R.length) : zeroLines (ofRows nc R) lines = ofRows nc (zeroRowsR R lines) := by
+  have hlen : (zeroRowsR R lines).map List.length = R.map List.length := by
+    have := congrArg (List.map List.length) (zeroRowsR_fst R lines)
+    simpa [List.map_map, Function.comp_def] using this
+  have hp : ∀ (s : Nat) (Q Q' : List (List (Nat × Rat))), Q.map List.length = Q'.map List.length →
+      ptrsFrom s Q = ptrsFrom s Q' := by
+    intro s Q
+    induction Q generalizing s with
+    | nil => intro Q' h; cases Q' with
+      | nil => rfl
+      | cons q Q' => simp at h
+    | cons q Q ih => intro Q' h; cases Q' with
+      | nil => simp at h
+      | cons q' Q' =>
+        simp only [List.map_cons, List.cons.injEq] at h
+        simp only [ptrsFrom, h.1, ih _ Q' h.2]
+  have hidx := lineIdx_ofRows nc R lines hl
+  have hpos : lines.flatMap (linePos R) = lines.flatMap (linePos (R.map (List.map (·.2)))) := by
+    apply flatMap_congr'
+    intro i _
+    exact linePos_congr _ _ (by simp [List.map_map, Function.comp_def]) i
+  have hsc := scatterConst_lines (0 : Rat) lines (R.map (List.map (·.2))) (by simpa using hl)
+  simp only [zeroLines]
+  rw [hidx, hpos]
+  simp only [ofRows, List.map_flatten] at hsc ⊢
+  rw [hsc, ← zeroRowsR_snd, ← zeroRowsR_fst R lines, hp 0 _ _ hlen]
+  have : (zeroRowsR R lines).length = R.length := by
+    have := congrArg List.length hlen
+    simpa using this
+  rw [this]
+
+theorem entrySum_zero_vals (j : Nat) (es : List (Nat × Rat)) :
+    entrySum j (es.map (fun e => (e.1, (0 : Rat)))) = 0 := by
+  induction es with
+  | nil => rfl
+  | cons e es ih => simp only [List.map_cons, entrySum, ite_self]; rw [ih]; exact Rat.add_zero 0
+
+theorem zeroRowsR_dense (nc : Nat) (R : List (List (Nat × Rat))) (lines : List Nat)
+    (hl : ∀ i ∈ lines, i < R.length) :
+    (zeroRowsR R lines).map (denseRow nc) = zeroRowsDense (R.map (denseRow nc)) lines := by
+  induction lines generalizing R with
+  | nil => rfl
+  | cons l lines ih =>
+    have hl0 : l < R.length := hl l List.mem_cons_self
+    rw [zeroRowsR, zeroRowsDense, ih _ (by
+      intro i hi; rw [List.length_set]; exact hl i (List.mem_cons_of_mem _ hi)), List.map_set]
+    congr 2
+    have hz : ∀ (es : List (Nat × Rat)), denseRow nc (es.map (fun e => (e.1, (0 : Rat)))) = List.replicate nc 0 := by
+      intro es
+      simp only [denseRow]
+      rw [List.eq_replicate_iff]
+      refine ⟨by simp, ?_⟩
+      intro x hx
+      obtain ⟨j, _, rfl⟩ := List.mem_map.mp hx
+      exact entrySum_zero_vals j es
+    rw [hz]
+    have : (R.map (denseRow nc)).getD l [] = denseRow nc (R.getD l []) := by
+      simp [List.getD_eq_getElem?_getD, hl0]
+    rw [this]
+    symm
+    rw [List.eq_replicate_iff]
+    refine ⟨by simp [denseRow], ?_⟩
+    intro b hb
+    obtain ⟨e, _, rfl⟩ := List.mem_map.mp hb
+    rfl
+
+/-! ### expand_indices_nd / add_increment / Kronecker -/
+
+theorem ravelF_map_rows (n : Nat) (g : Nat → Int → Int) (x : List Int) :
+    ravelF ((List.range n).map (fun d => x.map (g d))) x.length
+      = x.flatMap (fun v => (List.range n).map (fun d => g d v)) := by
+  induction x with
+  | nil => simp [ravelF]
+  | cons v x ih =>
+    simp only [ravelF, List.length_cons, List.range_succ_eq_map, List.flatMap_cons, List.map_cons,
+      List.flatMap_map, List.map_map] at ih ⊢
+    congr 1
+
+theorem flatMap_singleton_id (l : List Int) : l.flatMap (fun i => [i]) = l := by
+  induction l with
+  | nil => rfl
+  | cons a l ih => simp [List.flatMap_cons, ih]
+
+theorem expandIndicesNd_F (ind : List Int) (nd : Nat) :
+    expandIndicesNd ind nd true = expandNdSpecF ind nd := by
+  unfold expandIndicesNd expandNdSpecF
+  by_cases h : nd = 1
+  · subst h
+    simp only [if_true]
+    have : (fun (i : Int) => (List.range 1).map (fun (d : Nat) => ((1 : Nat) : Int) * i + (d : Int))) = fun i => [i] := by
+      funext i; simp [List.range_succ]
+    rw [this, flatMap_singleton_id]
+  · simp only [h, if_false, if_true]
+    exact ravelF_map_rows nd (fun d i => (nd : Int) * i + (d : Int)) ind
+
+theorem expandIndicesNd_C (ind : List Int) (nd : Nat) (h : nd ≠ 1) :
+    expandIndicesNd ind nd false = expandNdSpecC ind nd := by
+  unfold expandIndicesNd expandNdSpecC
+  simp only [h, if_false, Bool.false_eq_true, List.flatMap_def]
+
+theorem expandIndicesIncr_eq (x : List Int) (n : Nat) (incr : Int) :
+    expandIndicesIncr x n incr = expandIncrSpec x n incr := by
+  unfold expandIndicesIncr expandIncrSpec
+  exact ravelF_map_rows n (fun d v => v + incr * (d : Int)) x
+
+theorem range_mul (a b : Nat) :
+    List.range (a * b) = (List.range a).flatMap (fun j => (List.range b).map (fun e => j * b + e)) := by
+  induction a with
+  | zero => simp
+  | succ a ih =>
+    rw [Nat.succ_mul, List.range_add, ih, List.range_succ, List.flatMap_append]
+    simp
+
+theorem entrySum_kron (nd d e j : Nat) (hd : d < nd) (he : e < nd) (es : List (Nat × Rat)) :
+    entrySum (j * nd + e) (es.map (fun p => (p.1 * nd + d, p.2))) = if e = d then entrySum j es else 0 := by
+  induction es with
+  | nil => simp [entrySum]
+  | cons p es ih =>
+    simp only [List.map_cons, entrySum, ih]
+    have key : (p.1 * nd + d = j * nd + e) ↔ (p.1 = j ∧ e = d) := by
+      constructor
+      · intro h
+        have h1 : (p.1 * nd + d) / nd = (j * nd + e) / nd := by rw [h]
+        have h2 : (p.1 * nd + d) % nd = (j * nd + e) % nd := by rw [h]
+        rw [Nat.mul_comm p.1, Nat.mul_comm j, Nat.mul_add_div (by omega), Nat.mul_add_div (by omega),
+          Nat.div_eq_of_lt hd, Nat.div_eq_of_lt he] at h1
+        rw [Nat.mul_comm p.1, Nat.mul_comm j, Nat.mul_add_mod, Nat.mul_add_mod, Nat.mod_eq_of_lt hd,
+          Nat.mod_eq_of_lt he] at h2
+        omega
+      · rintro ⟨rfl, rfl⟩; rfl
+    by_cases hed : e = d
+    · subst hed
+      simp only [if_true]
+      have : (p.1 * nd + e = j * nd + e) ↔ p.1 = j := by rw [key]; simp
+      simp only [this]
+    · have : ¬ (p.1 * nd + d = j * nd + e) := by rw [key]; exact fun h => hed h.2
+      simp only [this, hed, if_false]
+      exact Rat.add_zero 0
+
+theorem denseRow_kron (nc nd d : Nat) (hd : d < nd) (es : List (Nat × Rat)) :
+    denseRow (nc * nd) (es.map (fun p => (p.1 * nd + d, p.2)))
+      = (denseRow nc es).flatMap (fun v => (List.range nd).map (fun e => if e = d then v else 0)) := by
+  simp only [denseRow, range_mul, List.map_flatMap, List.flatMap_map, List.map_map]
+  apply flatMap_congr'
+  intro j _
+  apply List.map_congr_left
+  intro e he
+  exact entrySum_kron nd d e j hd (List.mem_range.mp he) es
+
+theorem kronI_dense (A : Csr) (nd : Nat) : (kronI A nd).toDense = kronDense A.toDense nd := by
+  rw [kronI, toDense_ofRows]
+  simp only [kronDense, Csr.toDense, List.map_flatMap, List.flatMap_map, List.map_map]
+  apply flatMap_congr'
+  intro es _
+  apply List.map_congr_left
+  intro d hd
+  exact denseRow_kron A.ncols nd d (List.mem_range.mp hd) es
+
+/-! ### block-diagonal construction from sparse blocks -/
+
+/-- rows of the block-diagonal matrix: the rows of every block, columns shifted by the running offset -/
+def blkRows (ioff : Nat) : List (Nat × List (List (Nat × Rat))) → List (List (Nat × Rat))
+  | [] => []
+  | (nc, R) :: rest => R.map (shiftRow ioff) ++ blkRows (ioff + nc) rest
+
+theorem ptrsFrom_map_shiftRow (k s : Nat) (R : List (List (Nat × Rat))) :
+    ptrsFrom s (R.map (shiftRow k)) = ptrsFrom s R := by
+  induction R generalizing s with
+  | nil => rfl
+  | cons r R ih => simp [ptrsFrom, ih, shiftRow]
+
+theorem tail_append_of_ne_nil {α} (a b : List α) (h : a ≠ []) : (a ++ b).tail = a.tail ++ b := by
+  cases a with
+  | nil => exact absurd rfl h
+  | cons x a => rfl
+
+theorem blockArrays_ofRows : ∀ (Rs : List (Nat × List (List (Nat × Rat)))) (ioff poff : Nat),
+    blockArrays ioff poff (Rs.map (fun p => ofRows p.1 p.2))
+      = ((ptrsFrom poff (blkRows ioff Rs)).tail, (blkRows ioff Rs).flatten.map (·.1),
+         (blkRows ioff Rs).flatten.map (·.2)) := by
+  intro Rs
+  induction Rs with
+  | nil => intro ioff poff; rfl
+  | cons p Rs ih =>
+    intro ioff poff
+    obtain ⟨nc, R⟩ := p
+    simp only [List.map_cons, blockArrays, ih, blkRows]
+    have h1 : (ofRows nc R).indptr.getLastD 0 = R.flatten.length := by
+      simp only [ofRows]; rw [getLastD_ptrsFrom, Nat.zero_add]
+    have h2 : (ofRows nc R).ncols = nc := rfl
+    have hlen : (R.map (shiftRow ioff)).flatten.length = R.flatten.length := by
+      simp [List.length_flatten, List.map_map, Function.comp_def, shiftRow]
+    rw [h1, h2, ptrsFrom_append, tail_append_of_ne_nil _ _ (by rw [ptrsFrom_eq_cons]; simp),
+      ptrsFrom_map_shiftRow, hlen]
+    have h3 : (ofRows nc R).indptr.tail.map (· + poff) = (ptrsFrom poff R).tail := by
+      have := ptrsFrom_shift 0 poff R
+      rw [Nat.zero_add] at this
+      simp only [ofRows]
+      rw [this, List.map_tail]
+    rw [h3]
+    simp only [List.flatten_append, List.map_append, Prod.mk.injEq, true_and]
+    constructor
+    · congr 1
+      simp [ofRows, List.map_flatten, shiftRow, Function.comp_def]
+    · congr 1
+      simp [ofRows, List.map_flatten, shiftRow, Function.comp_def]
+
+theorem length_blkRows (ioff : Nat) (Rs : List (Nat × List (List (Nat × Rat)))) :
+    (blkRows ioff Rs).length = sumN (Rs.map (fun p => p.2.length)) := by
+  induction Rs generalizing ioff with
+  | nil => rfl
+  | cons p Rs ih => obtain ⟨nc, R⟩ := p; simp [blkRows, sumN, ih]
+
+theorem blkRows_shift (a b : Nat) (Rs : List (Nat × List (List (Nat × Rat)))) :
+    blkRows (a + b) Rs = (blkRows b Rs).map (shiftRow a) := by
+  induction Rs generalizing b with
+  | nil => rfl
+  | cons p Rs ih =>
+    obtain ⟨nc, R⟩ := p
+    simp only [blkRows, List.map_append, List.map_map]
+    rw [Nat.add_assoc, ih]
+    congr 1
+    apply List.map_congr_left
+    intro r _
+    simp [shiftRow, Function.comp_def, Nat.add_assoc, Nat.add_comm b a]
+
+theorem shiftRow_zero (r : List (Nat × Rat)) : shiftRow 0 r = r := by
+  simp [shiftRow]
+
+/-- dense form of the block rows: the recursive dense block-diagonal matrix -/
+theorem blkRows_dense : ∀ (Rs : List (Nat × List (List (Nat × Rat)))), (∀ p ∈ Rs, RowsOk p.1 p.2) →
+    (blkRows 0 Rs).map (denseRow (sumN (Rs.map (·.1))))
+      = (blockDiagDense (Rs.map (fun p => (p.2.map (denseRow p.1), p.1)))).1 ∧
+    (blockDiagDense (Rs.map (fun p => (p.2.map (denseRow p.1), p.1)))).2 = sumN (Rs.map (·.1)) := by
+  intro Rs
+  induction Rs with
+  | nil => intro _; exact ⟨rfl, rfl⟩
+  | cons p Rs ih =>
+    intro hok
+    obtain ⟨nc, R⟩ := p
+    obtain ⟨ih1, ih2⟩ := ih (fun q hq => hok q (List.mem_cons_of_mem _ hq))
+    have okR : RowsOk nc R := hok (nc, R) List.mem_cons_self
+    simp only [List.map_cons, blockDiagDense, blkRows, sumN, List.map_append, List.map_map, ih2, diagDense]
+    refine ⟨?_, trivial⟩
+    congr 1
+    · apply List.map_congr_left
+      intro r hr
+      simp only [Function.comp, shiftRow_zero]
+      exact denseRow_add_left nc _ r (okR r hr)
+    · rw [← ih1]
+      have := blkRows_shift nc 0 Rs
+      rw [Nat.add_zero] at this
+      rw [Nat.zero_add, this, List.map_map, List.map_map]
+      apply List.map_congr_left
+      intro r _
+      simp only [Function.comp]
+      exact denseRow_add_right nc _ r
+
+theorem RowsOk_blkRows : ∀ (Rs : List (Nat × List (List (Nat × Rat)))) (ioff : Nat), (∀ p ∈ Rs, RowsOk p.1 p.2) →
+    RowsOk (ioff + sumN (Rs.map (·.1))) (blkRows ioff Rs) := by
+  intro Rs
+  induction Rs with
+  | nil => intro ioff _ r hr; cases hr
+  | cons p Rs ih =>
+    intro ioff hok
+    obtain ⟨nc, R⟩ := p
+    simp only [blkRows, List.map_cons, sumN]
+    apply RowsOk_append
+    · have := RowsOk_shift (k := ioff) (hok (nc, R) List.mem_cons_self)
+      exact RowsOk_mono this (by simp only; omega)
+    · have := ih (ioff + nc) (fun q hq => hok q (List.mem_cons_of_mem _ hq))
+      rw [Nat.add_assoc] at this
+      exact this
+
+/-! ### block_diag_index for square blocks -/
+
+theorem tile_eq_flatMap {α} (a : List α) (n : Nat) : tile a n = (List.range n).flatMap (fun _ => a) := by
+  induction n with
+  | zero => rfl
+  | succ n ih =>
+    rw [tile, ih, List.range_succ_eq_map, List.flatMap_cons, List.flatMap_map]
+
+theorem blockDiagIndexSq_eq (off : Nat) (m : List Nat) :
+    blockDiagIndexSq off m = (bdiSpec off off m m).map (·.1) := by
+  induction m generalizing off with
+  | nil => rfl
+  | cons s m ih =>
+    simp only [blockDiagIndexSq, bdiSpec, List.map_append, ih, tile_eq_flatMap, List.map_flatMap, List.map_map]
+    congr 1
+    apply flatMap_congr'
+    intro c _
+    simp [List.range'_eq_map_range, Function.comp_def]
+
+theorem expand_index_pointers_same_length (lo hi : List Int) (h : lo.length = hi.length) :
+    expandIndexPointers lo hi = .ok (expandSpec lo hi) := by
+  have hb : broadcastLoHi lo hi = (lo, hi) := broadcastLoHi_same_length lo hi h
+  simp only [expandIndexPointers, hb, h, ne_eq, not_true_eq_false, if_false, expandCore_eq_spec]
+
+theorem rldecode_eq_repeat' {α} [Inhabited α] (a : List α) (n : List Int) (h : n.length ≤ a.length) :
+    rldecode a n = .ok (rldecodeSpec a n) := by
+  have hidx := rldecode_idx n
+  simp only at hidx
+  have hall : (repeatSpec (whereTrue (n.map (fun c => decide (0 < c)))) (posCounts n)).any
+      (fun k => decide (a.length ≤ k)) = false := by
+    rw [List.any_eq_false]
+    intro k hk
+    have hm := mem_repeatSpec _ _ k hk
+    have := trueIdxFrom_bounds 0 _ k hm
+    simp only [List.length_map] at this
+    simp only [decide_eq_true_eq]; omega
+  simp only [rldecode, hidx, hall, gather_repeatSpec, Bool.false_eq_true, if_false]
+  simp only [whereTrue]
+  rw [repeatSpec_pos_eq_spec a n a 0 rfl h]
+
+/-! ### block_diag_index with rectangular blocks -/
+
+theorem expandSpec_append (lo1 hi1 lo2 hi2 : List Int) (h : lo1.length = hi1.length) :
+    expandSpec (lo1 ++ lo2) (hi1 ++ hi2) = expandSpec lo1 hi1 ++ expandSpec lo2 hi2 := by
+  induction lo1 generalizing hi1 with
+  | nil => cases hi1 with
+    | nil => simp [expandSpec]
+    | cons _ _ => simp at h
+  | cons l lo1 ih => cases hi1 with
+    | nil => simp at h
+    | cons x hi1 =>
+      simp only [List.cons_append, expandSpec, List.append_assoc]
+      rw [ih hi1 (by simpa using h)]
+
+theorem expandSpec_replicate (c : Nat) (a b : Int) :
+    expandSpec (List.replicate c a) (List.replicate c b) = (List.range c).flatMap (fun _ => rangeI a b) := by
+  induction c with
+  | zero => rfl
+  | succ c ih =>
+    simp only [List.replicate_succ, expandSpec, ih, List.range_succ_eq_map, List.flatMap_cons, List.flatMap_map]
+
+theorem rldecodeSpec_append {α} (a1 a2 : List α) (n1 n2 : List Int) (h : a1.length = n1.length) :
+    rldecodeSpec (a1 ++ a2) (n1 ++ n2) = rldecodeSpec a1 n1 ++ rldecodeSpec a2 n2 := by
+  induction a1 generalizing n1 with
+  | nil => cases n1 with
+    | nil => simp [rldecodeSpec]
+    | cons _ _ => simp at h
+  | cons x a1 ih => cases n1 with
+    | nil => simp at h
+    | cons c n1 =>
+      simp only [List.cons_append, rldecodeSpec, List.append_assoc]
+      rw [ih n1 (by simpa using h)]
+
+theorem rldecodeSpec_replicate {α} (a : List α) (c : Int) :
+    rldecodeSpec a (List.replicate a.length c) = a.flatMap (fun x => List.replicate c.toNat x) := by
+  induction a with
+  | nil => rfl
+  | cons x a ih => simp only [List.length_cons, List.replicate_succ, rldecodeSpec, ih, List.flatMap_cons]
+
+theorem length_rldecodeSpec {α} (a : List α) (n : List Nat) (h : n.length ≤ a.length) :
+    (rldecodeSpec a (n.map (fun (c : Nat) => (c : Int)))).length = sumN n := by
+  induction n generalizing a with
+  | nil => cases a <;> rfl
+  | cons c n ih => cases a with
+    | nil => simp at h
+    | cons x a =>
+      simp only [List.map_cons, rldecodeSpec, List.length_append, List.length_replicate, Int.toNat_natCast,
+        sumN, ih a (by simpa using h)]
+
+theorem rangeI_nat (a k : Nat) : rangeI (a : Int) ((a : Int) + (k : Int)) = (List.range k).map (fun (r : Nat) => ((a + r : Nat) : Int)) := by
+  have e : ((a : Int) + (k : Int) - (a : Int)).toNat = k := by omega
+  simp only [rangeI, e]
+  apply List.map_congr_left
+  intro r _
+  push_cast; rfl
+
+theorem rangeI_split (a : Int) (x y : Nat) :
+    rangeI a (a + ((x : Int) + (y : Int))) = rangeI a (a + (x : Int)) ++ rangeI (a + (x : Int)) (a + (x : Int) + (y : Int)) := by
+  have e1 : (a + ((x : Int) + (y : Int)) - a).toNat = x + y := by omega
+  have e2 : (a + (x : Int) - a).toNat = x := by omega
+  have e3 : (a + (x : Int) + (y : Int) - (a + (x : Int))).toNat = y := by omega
+  simp only [rangeI, e1, e2, e3, List.range_add, List.map_append, List.map_map]
+  congr 1
+  apply List.map_congr_left
+  intro r _
+  simp only [Function.comp]
+  push_cast; omega
+
+theorem sumI_natCast (n : List Nat) : sumI (n.map (fun (c : Nat) => (c : Int))) = ((sumN n : Nat) : Int) := by
+  induction n with
+  | nil => rfl
+  | cons c n ih => simp only [List.map_cons, sumI, sumN, ih]; push_cast; rfl
+
+theorem dropLast_cons_cons {α} (a b : α) (l : List α) : (a :: b :: l).dropLast = a :: (b :: l).dropLast := rfl
+
+theorem cumsumFrom_cons' (s x : Int) (l : List Int) : cumsumFrom s (x :: l) = (s + x) :: cumsumFrom (s + x) l := rfl
+
+theorem bdi_rows : ∀ (m n : List Nat) (ro co : Nat), m.length = n.length →
+    expandSpec
+        (rldecodeSpec (((ro : Int) :: cumsumFrom (ro : Int) (m.map (fun (c : Nat) => (c : Int)))).dropLast)
+          (n.map (fun (c : Nat) => (c : Int))))
+        ((rldecodeSpec ((cumsumFrom (ro : Int) (m.map (fun (c : Nat) => (c : Int)))).map (· - 1))
+          (n.map (fun (c : Nat) => (c : Int)))).map (· + 1))
+      = (bdiSpec ro co m n).map (fun p => ((p.1 : Nat) : Int)) := by
+  intro m
+  induction m with
+  | nil => intro n ro co h; cases n with
+    | nil => rfl
+    | cons _ _ => simp at h
+  | cons mk m ih =>
+    intro n ro co h
+    cases n with
+    | nil => simp at h
+    | cons nk n =>
+      have h' : m.length = n.length := by simpa using h
+      have e0 : (ro : Int) + (mk : Int) = ((ro + mk : Nat) : Int) := by push_cast; rfl
+      have ih' := ih n (ro + mk) (co + nk) h'
+      rw [← e0] at ih'
+      simp only [List.map_cons, cumsumFrom_cons', dropLast_cons_cons, rldecodeSpec, Int.toNat_natCast,
+        List.map_append, List.map_replicate, bdiSpec]
+      rw [expandSpec_append _ _ _ _ (by simp), ih', expandSpec_replicate]
+      congr 1
+      rw [List.map_flatMap]
+      apply flatMap_congr'
+      intro c _
+      have e1 : (ro : Int) + (mk : Int) - 1 + 1 = (ro : Int) + (mk : Int) := by omega
+      rw [e1, rangeI_nat, List.map_map]
+      rfl
+
+theorem bdi_cols : ∀ (m n : List Nat) (ro co : Nat), m.length = n.length →
+    rldecodeSpec (rangeI (co : Int) ((co : Int) + sumI (n.map (fun (c : Nat) => (c : Int)))))
+        (rldecodeSpec (m.map (fun (c : Nat) => (c : Int))) (n.map (fun (c : Nat) => (c : Int))))
+      = (bdiSpec ro co m n).map (fun p => ((p.2 : Nat) : Int)) := by
+  intro m
+  induction m with
+  | nil => intro n ro co h; cases n with
+    | nil => simp [rldecodeSpec, bdiSpec]
+    | cons _ _ => simp at h
+  | cons mk m ih =>
+    intro n ro co h
+    cases n with
+    | nil => simp at h
+    | cons nk n =>
+      have h' : m.length = n.length := by simpa using h
+      have e0 : (co : Int) + (nk : Int) = ((co + nk : Nat) : Int) := by push_cast; rfl
+      have ih' := ih n (ro + mk) (co + nk) h'
+      rw [← e0] at ih'
+      simp only [List.map_cons, sumI, rldecodeSpec, Int.toNat_natCast, bdiSpec, List.map_append]
+      rw [sumI_natCast, rangeI_split]
+      rw [sumI_natCast] at ih'
+      have hl : (rangeI (co : Int) ((co : Int) + (nk : Int))).length = (List.replicate nk ((mk : Nat) : Int)).length := by
+        rw [rangeI_nat]; simp
+      rw [rldecodeSpec_append _ _ _ _ hl, ih']
+      congr 1
+      have hl2 : (rangeI (co : Int) ((co : Int) + (nk : Int))).length = nk := by rw [rangeI_nat]; simp
+      have hrep := rldecodeSpec_replicate (rangeI (co : Int) ((co : Int) + (nk : Int))) ((mk : Nat) : Int)
+      rw [hl2] at hrep
+      rw [hrep]
+      rw [rangeI_nat, List.flatMap_map, List.map_flatMap]
+      apply flatMap_congr'
+      intro c _
+      simp [List.map_const', Function.comp_def]
+
+theorem blockDiagIndex_eq (m n : List Nat) (h : m.length = n.length) :
+    blockDiagIndex (m.map (fun (c : Nat) => (c : Int))) (n.map (fun (c : Nat) => (c : Int)))
+      = .ok ((bdiSpec 0 0 m n).map (fun p => ((p.1 : Nat) : Int)), (bdiSpec 0 0 m n).map (fun p => ((p.2 : Nat) : Int))) := by
+  have hlc : ∀ (s : Int) (l : List Int), (cumsumFrom s l).length = l.length := by
+    intro s l; induction l generalizing s with
+    | nil => rfl
+    | cons a l ih => simp [cumsumFrom, ih]
+  have hpos : cumsum (0 :: m.map (fun (c : Nat) => (c : Int))) = (0 : Int) :: cumsumFrom 0 (m.map (fun (c : Nat) => (c : Int))) := by
+    simp [cumsum, cumsumFrom]
+  have h1 : (n.map (fun (c : Nat) => (c : Int))).length ≤ ((0 : Int) :: cumsumFrom 0 (m.map (fun (c : Nat) => (c : Int)))).dropLast.length := by
+    simp [hlc, h]
+  have h2 : (n.map (fun (c : Nat) => (c : Int))).length ≤ ((cumsumFrom 0 (m.map (fun (c : Nat) => (c : Int)))).map (· - 1)).length := by
+    simp [hlc, h]
+  have h3 : (n.map (fun (c : Nat) => (c : Int))).length ≤ (m.map (fun (c : Nat) => (c : Int))).length := by simp [h]
+  have h4 : (rldecodeSpec (m.map (fun (c : Nat) => (c : Int))) (n.map (fun (c : Nat) => (c : Int)))).length
+      ≤ (rangeI 0 (sumI (n.map (fun (c : Nat) => (c : Int))))).length := by
+    rw [length_rldecodeSpec _ _ (by simp [h]), sumI_natCast]
+    simp [rangeI]
+  have r1 := bdi_rows m n 0 0 h
+  have r2 := bdi_cols m n 0 0 h
+  simp only [Int.natCast_zero, Int.zero_add] at r1 r2
+  simp only [blockDiagIndex, hpos, List.tail_cons, bind, Except.bind, rldecode_eq_repeat' _ _ h1,
+    rldecode_eq_repeat' _ _ h2, rldecode_eq_repeat' _ _ h3, rldecode_eq_repeat' _ _ h4]
+  rw [expand_index_pointers_same_length]
+  · simp only [r1, r2, pure, Except.pure]
+  · simp [length_rldecodeSpec, hlc, h]
+
+/-! ### merge_matrices: vector lemmas -/
+
+theorem length_scatter {α} (x : List α) (idx : List Nat) (vals : List α) : (scatter x idx vals).length = x.length := by
+  induction idx generalizing x vals with
+  | nil => cases vals <;> rfl
+  | cons i is ih => cases vals with
+    | nil => rfl
+    | cons v vs => simp [scatter, ih]
+
+theorem lookup_zip_of_not_mem {β} (j : Nat) (idx : List Nat) (vals : List β) (h : j ∉ idx) :
+    (idx.zip vals).lookup j = none := by
+  induction idx generalizing vals with
+  | nil => rfl
+  | cons i is ih => cases vals with
+    | nil => rfl
+    | cons v vs =>
+      have h1 : j ≠ i := fun e => h (e ▸ List.mem_cons_self)
+      have h2 : j ∉ is := fun e => h (List.mem_cons_of_mem _ e)
+      simp only [List.zip_cons_cons, List.lookup_cons]
+      have : (j == i) = false := by simpa using h1
+      rw [this]; exact ih vs h2
+
+theorem scatter_eq_map {α} (z : α) : ∀ (idx : List Nat) (vals x : List α), idx.Nodup → (∀ i ∈ idx, i < x.length) →
+    idx.length = vals.length →
+    scatter x idx vals = (List.range x.length).map (fun j => ((idx.zip vals).lookup j).getD (x.getD j z)) := by
+  intro idx
+  induction idx with
+  | nil =>
+    intro vals x _ _ _
+    cases vals with
+    | nil =>
+      simp only [scatter, List.zip_nil_left, List.lookup_nil, Option.getD_none]
+      apply List.ext_getElem
+      · simp
+      · intro k h1 h2
+        simp only [List.length_map, List.length_range] at h2
+        simp [List.getD_eq_getElem?_getD, List.getElem?_eq_getElem h1]
+    | cons _ _ => simp at *
+  | cons i is ih =>
+    intro vals x hnd hlt hlen
+    cases vals with
+    | nil => simp at hlen
+    | cons v vs =>
+      have hi : i < x.length := hlt i List.mem_cons_self
+      have hnd' := (List.nodup_cons.mp hnd)
+      rw [scatter, ih vs (x.set i v) hnd'.2 (by
+        intro k hk; rw [List.length_set]; exact hlt k (List.mem_cons_of_mem _ hk)) (by simpa using hlen),
+        List.length_set]
+      apply List.map_congr_left
+      intro j hj
+      have hj' : j < x.length := List.mem_range.mp hj
+      simp only [List.zip_cons_cons, List.lookup_cons]
+      by_cases hji : j = i
+      · subst hji
+        rw [lookup_zip_of_not_mem j is vs hnd'.1]
+        simp [List.getD_eq_getElem?_getD, hj']
+      · have : (j == i) = false := by simpa using hji
+        rw [this]
+        simp only [List.getD_eq_getElem?_getD]
+        rw [List.getElem?_set_ne (fun e => hji e.symm)]
+
+theorem scatter_succ {α} (a : α) (x : List α) (idx : List Nat) (vals : List α) :
+    scatter (a :: x) (idx.map (· + 1)) vals = a :: scatter x idx vals := by
+  induction idx generalizing x vals with
+  | nil => cases vals <;> rfl
+  | cons i is ih => cases vals with
+    | nil => rfl
+    | cons v vs => simp only [List.map_cons, scatter, List.set_cons_succ, ih]
+
+theorem lookup_zip_map {β} (j : Nat) (idx : List Nat) (g : Nat → β) :
+    (idx.zip (idx.map g)).lookup j = if j ∈ idx then some (g j) else none := by
+  induction idx with
+  | nil => rfl
+  | cons i is ih =>
+    simp only [List.map_cons, List.zip_cons_cons, List.lookup_cons, List.mem_cons]
+    by_cases hji : j = i
+    · subst hji; simp
+    · have : (j == i) = false := by simpa using hji
+      rw [this, ih]
+      simp [hji]
+
+theorem cumsumFrom_sub (a b : List Int) (s t : Int) (h : a.length = b.length) :
+    List.zipWith (· - ·) (cumsumFrom s a) (cumsumFrom t b) = cumsumFrom (s - t) (List.zipWith (· - ·) a b) := by
+  induction a generalizing b s t with
+  | nil => cases b <;> rfl
+  | cons x a ih => cases b with
+    | nil => simp at h
+    | cons y b =>
+      simp only [cumsumFrom, List.zipWith_cons_cons]
+      rw [ih b _ _ (by simpa using h)]
+      have : s + x - (t + y) = s - t + (x - y) := by omega
+      rw [this]
+
+theorem cumsumFrom_add (a b : List Int) (s t : Int) (h : a.length = b.length) :
+    List.zipWith (· + ·) (cumsumFrom s a) (cumsumFrom t b) = cumsumFrom (s + t) (List.zipWith (· + ·) a b) := by
+  induction a generalizing b s t with
+  | nil => cases b <;> rfl
+  | cons x a ih => cases b with
+    | nil => simp at h
+    | cons y b =>
+      simp only [cumsumFrom, List.zipWith_cons_cons]
+      rw [ih b _ _ (by simpa using h)]
+      have : s + x + (t + y) = s + t + (x + y) := by omega
+      rw [this]
+
+theorem ptrsFrom_cast {β} (s : Nat) (R : List (List β)) :
+    (ptrsFrom s R).map (fun (p : Nat) => (p : Int)) = (s : Int) :: cumsumFrom (s : Int) (R.map (fun r => (r.length : Int))) := by
+  induction R generalizing s with
+  | nil => rfl
+  | cons r R ih =>
+    have e : (s : Int) + (r.length : Int) = ((s + r.length : Nat) : Int) := by push_cast; rfl
+    simp only [ptrsFrom, List.map_cons, cumsumFrom, ih, e]
+
+theorem map_eq_range_map {β γ} (f : β → γ) (l : List β) (d : β) :
+    l.map f = (List.range l.length).map (fun j => f (l.getD j d)) := by
+  apply List.ext_getElem
+  · simp
+  · intro k h1 h2
+    simp only [List.length_map] at h1
+    simp [List.getD_eq_getElem?_getD, h1]
+
+theorem length_cumsumFrom (s : Int) (l : List Int) : (cumsumFrom s l).length = l.length := by
+  induction l generalizing s with
+  | nil => rfl
+  | cons a l ih => simp [cumsumFrom, ih]
+
 end PorepyVerif.C35
